@@ -108,6 +108,7 @@ def job_fit_handoff(job):
 
     r = Result()
     handoff.asm_fit(r, {"kind": "job", "job": job})
+    handoff.asm_compound(r, {"kind": "job", "job": job})
     r.sample({"orchestration": "DenovoMCMC.fit -> _mcmc -> _denovo_assembler"}, cap=1)
     return r
 
